@@ -148,6 +148,8 @@ FnIdempotent ==
   FuncDone => /\ LocalAssignIdempotent(f, TRUE) /\ LocalAssignIdempotent(f, ValidateOnPrint)
               \* the parser's AssignIDs followed by the printer's
               /\ LET r == AssignLocalIDs(f, TRUE) IN AssignLocalIDs(r.f, ValidateOnPrint) = r
+\* parse -> insert an unnamed instruction -> print: the shift law and the numbering after the edit
+FnInsertShifts == FuncDone => InsertShifts(f) /\ ParseInsertPrintCorrect(f, ValidateOnPrint)
 ModBuiltCorrect ==
   ModDone => LET r == AssignGlobalIDs(BuildInstall(src), ValidateOnPrint)
              IN r.ok /\ GlobalIdsCorrect(r.gl)
@@ -175,7 +177,8 @@ Write(rec) == Serialize(ToJson(rec) \o "\n", EmitFile,
 
 Emit ==
   IF kind' = "func"
-  THEN stage' >= 2 => Write([kind |-> "func", f |-> ShapeOf(f'), form |-> form', names |-> names', ids |-> LLVMLocalNumbering(f')])
+  THEN stage' >= 2 => Write([kind |-> "func", f |-> ShapeOf(f'), form |-> form', names |-> names', ids |-> LLVMLocalNumbering(f'),
+                           ins |-> LLVMLocalNumbering(InsertFirst(f'))[InsertPos(f')]])
   ELSE Write([kind |-> "mod", src |-> src', names |-> names', textual |-> TextualGlobalNumbering(src'),
               printed |-> PrintedNumber(src')])
 =============================================================================
